@@ -19,6 +19,8 @@ import (
 	"strings"
 	"sync"
 	"time"
+
+	"github.com/versity/versitygw/verifhook"
 )
 
 // IAMCache is an in memory cache of the IAM accounts
@@ -165,6 +167,7 @@ func (c *IAMCache) GetUserAccount(access string) (Account, error) {
 	if err != nil {
 		return Account{}, err
 	}
+	verifhook.At("iamcache.get.fetched")
 
 	c.iamcache.set(access, a)
 	return a, nil
